@@ -192,6 +192,8 @@ def attribute(stream, cwd_rel=''):
             else:
                 per.setdefault(cur, []).append(ln[:i])
         kind, pid, ts, text = mm.group(1), int(mm.group(2)), float(mm.group(3)), mm.group(4)
+        if kind in ('do', 'resumed') and text:
+            text = os.path.normpath(text)       # the viewer prints "resumed sub/../mid" but "do mid"
         recs.append((kind, text))
         # How the follower works (src/bin/redo/log.rs): it reads the log of a target T; at a do/locked/waiting
         # record about X it prints "do X" (once per X), shows X's log recursively and returns to T's log; before
@@ -207,7 +209,7 @@ def attribute(stream, cwd_rel=''):
             cur = text
         elif kind == 'done':
             sp = text.split(' ', 1)
-            name = sp[1] if len(sp) == 2 else ''
+            name = os.path.normpath(sp[1]) if len(sp) == 2 and sp[1] else ''
             if name in open_:
                 open_.remove(name)
         # locked / waiting / unlocked / unchanged / check...: no change of writer
@@ -374,6 +376,82 @@ def _complete(tg, nm, ran):
     return True
 
 
+def subdir_case(item):
+    """Targets in sub-directories built by a rule of a parent directory, with a checksummed target below them: the rebuild goes
+    through the out-of-band path, whose records must name targets relative to the right directory (the viewer resolves them
+    against the directory of the target whose log it reads)."""
+    _, j, depth, seed = item
+    sub = '/'.join(['sub', 'deep'][:depth])
+    files = {
+        'default.d.do': scen.TRACE_HDR + 'echo "S $1 $$ $PPID" >&9\necho "$2#0 start" >&2\nredo-ifchange mid other.leaf\necho "$2#1 after" >&2\ncat mid > $3\necho "E $1 $$ 0" >&9\n',
+        'mid.do': scen.TRACE_HDR + 'echo "S $1 $$ $PPID" >&9\necho "mid#0" >&2\nredo-ifchange st\necho "mid#1" >&2\ncat st > $3\necho "E $1 $$ 0" >&9\n',
+        'st.do': scen.TRACE_HDR + 'echo "S $1 $$ $PPID" >&9\necho "st#0" >&2\nredo-ifchange src\nhead -c 2 src > $3\necho "st#1" >&2\nredo-stamp < $3\necho "E $1 $$ 0" >&9\n',
+        'default.leaf.do': scen.TRACE_HDR + 'echo "S $1 $$ $PPID" >&9\necho "$2#0 leaf" >&2\necho leaf > $3\necho "E $1 $$ 0" >&9\n',
+        'src': 'a1\n', sub + '/keep': 'x\n'}
+    pj = scen.Project(files, 'c18s')
+    anoms = []
+    obs = dict(builds=0)
+    t = sub + '/x.d'
+    want = {sub + '/x': None}
+    try:
+        extra = {'REDO_PRETTY': '0'}
+        for phase, content in (('first', None), ('changed', 'b2\n'), ('same-checksum', 'b2 other\n'), ('forced-changed', 'c3\n'), ('forced-same-checksum', 'c3 other\n')):
+            if content is not None:
+                common.write_file(os.path.join(pj.top, 'src'), content)
+                os.utime(os.path.join(pj.top, 'src'), ns=(int(time.time() * 1e9) + (5 + obs['builds']) * 10 ** 9,) * 2)
+            open(pj.trace, 'w').close()
+            if phase.startswith('forced'):
+                # the target's own script runs (forced) and finds its dependency only "maybe dirty": the out-of-band round now
+                # happens inside a process whose REDO_TARGET lies in the sub-directory
+                r, _ = pj.run(['redo'] + (['-j%d' % j] if j > 1 else []) + [t], extra=extra, timeout=60, verif_log=False)
+            else:
+                r, _ = pj.run(['redo-ifchange', t], extra=extra, slots=(j if j > 1 else None), timeout=60, verif_log=False)
+            obs['builds'] += 1
+            text = r.err + r.out
+            if r.status != 'exit' or r.panicked():
+                return dict(verdict='inconclusive', why='build did not end normally (C09 matter)', sample=dict(item=list(item)))
+            if r.rc != 0:
+                anoms.append(dict(key='subdir:%s:build-failed' % phase, what=text[-300:]))
+                break
+            if re.search(r'redo-log: .*not known to redo|redo-log: .*[Ee]rror|failed to start redo-log', text):
+                anoms.append(dict(key='subdir:%s:viewer-error' % phase, what='the log viewer gave up during redo-ifchange %s: %s' % (t, [l for l in text.split('\n') if 'redo-log' in l][:2])))
+            ran = [l.split(' ')[1] for l in pj.trace_text().split('\n') if l.startswith('S ')]
+            r2, _ = pj.run(['redo-log', '-r', '--no-pretty', t], verif_log=False, timeout=60)
+            if r2.rc != 0:
+                anoms.append(dict(key='subdir:%s:replay-nonzero' % phase, what='redo-log -r %s exits %s: %s' % (t, r2.rc, (r2.err + r2.out)[-300:])))
+                continue
+            per, recs, problems = attribute(r2.out)
+            exp = {t: [sub + '/x#0 start', sub + '/x#1 after'], 'mid': ['mid#0', 'mid#1'], 'st': ['st#0', 'st#1'], 'other.leaf': ['other#0 leaf']}
+            per = {os.path.normpath(k): v for k, v in per.items()}
+            # live (pretty) stream: every line of every script that ran appears exactly once
+            live_lines = [l.strip() for l in text.split('\n')]
+            for n in ran:
+                for l in exp.get(n, []):
+                    if live_lines.count(l) != 1:
+                        anoms.append(dict(key='subdir:%s:live-line-count' % phase, what='%r (written by %s) appears %d times in the live output of redo-ifchange %s'
+                                          % (l, n, live_lines.count(l), t)))
+            # replay of the requested target: what it shows is complete and under the right name; the target itself is there.
+            # (A checksummed target brought up to date out of band is logged by the top-level command, not in this target's log.)
+            for n, got in per.items():
+                got = [l.rstrip() for l in got]
+                if n in exp and n in ran and got != exp[n]:
+                    anoms.append(dict(key='subdir:%s:lines' % phase, what='replay of %s after the %s build: %s shown under %r, script wrote %s' % (t, phase, got, n, exp[n])))
+                if n not in exp and got:
+                    anoms.append(dict(key='subdir:%s:unknown-name' % phase, what='replay shows lines %s under %r' % (got[:2], n)))
+            if t in ran and [l.rstrip() for l in per.get(t, [])] != exp[t]:
+                anoms.append(dict(key='subdir:%s:target-lines' % phase, what='replay of %s: %s, script wrote %s' % (t, per.get(t), exp[t])))
+            obs['subdir_lines_attributed'] = obs.get('subdir_lines_attributed', 0) + sum(len(v) for v in per.values())
+    finally:
+        pj.close()
+    res = dict(verdict='violated' if anoms else 'held', nontrivial=obs['builds'] >= 3, shape=common.shash(list(item)),
+               sample=dict(kind='subdir-out-of-band', j=j, depth=depth), obs=dict(obs, subdir_cases=1), sets=dict(segments=['subdir-out-of-band']))
+    if anoms:
+        seen = set()
+        res['violations'] = [a for a in anoms if not (a['key'] in seen or seen.add(a['key']))]
+        res['replay'] = dict(kind='subdir', item=list(item))
+    return res
+
+
 # --------------------------------------------------------------------------- direct round trips of the record type
 
 KINDS = ['do', 'done', 'unchanged', 'waiting', 'locked', 'unlocked', 'resumed', 'check', 'checked', 'error', 'warning', 'debug']
@@ -424,6 +502,8 @@ def direct_case(item):
 
 
 def dispatch(item):
+    if item[0] == 'subdir':
+        return subdir_case(item)
     return direct_case(item) if item[0] == 'direct' else case(item)
 
 
@@ -451,6 +531,10 @@ def main(tier):
     for i in range(70 if quick else 1500):
         n = rnd.choice([3, 5, 8, 12, 18, 25])
         items.append(('build', n, rnd.choice([1, 2, 3, 4, 8]), 'fail' if rnd.random() < 0.15 else 'ok', rnd.choice(['redo', 'redo-ifchange']), rnd.randrange(10 ** 9)))
+    for j in (1, 3):
+        for depth in (1, 2):
+            for rep in range(1 if quick else 5):
+                items.append(('subdir', j, depth, rep))
     for i in range(4 if quick else 60):
         items.append(('direct', common.seed() * 977 + i, 5000 if quick else 20000))
     common.ensure_native()
